@@ -1176,6 +1176,24 @@ def returned_closure(outer):
     return found
 
 
+def calls_postorder(node):
+    """Calls inside an expression / simple statement in evaluation order:
+    arguments (inner calls) before the call that receives them, siblings left
+    to right."""
+    out = []
+
+    def visit(n):
+        if isinstance(n, (ast.FunctionDef, ast.AsyncFunctionDef, ast.Lambda,
+                          ast.ClassDef)) and n is not node:
+            return
+        for ch in ast.iter_child_nodes(n):
+            visit(ch)
+        if isinstance(n, ast.Call):
+            out.append(n)
+    visit(node)
+    return out
+
+
 def ordered_calls(stmts):
     """Calls of a statement list in execution-like source order: statement by
     statement, headers before bodies, by position inside a simple
@@ -1187,7 +1205,7 @@ def ordered_calls(stmts):
             continue
         kids = list(iter_child_stmts(st))
         if not kids:
-            out += sorted(calls_in(st), key=lambda c: (c.lineno, c.col_offset))
+            out += calls_postorder(st)
             continue
         hdr = []
         for field, value in ast.iter_fields(st):
@@ -1195,8 +1213,8 @@ def ordered_calls(stmts):
                 continue
             for sub in (value if isinstance(value, list) else [value]):
                 if isinstance(sub, ast.AST):
-                    hdr += calls_in(sub)
-        out += sorted(hdr, key=lambda c: (c.lineno, c.col_offset))
+                    hdr += calls_postorder(sub)
+        out += hdr
         out += ordered_calls(kids)
     return out
 
